@@ -166,15 +166,10 @@ theorem signal_deaths_are_errors :
 theorem run_table_complete : Gen.pyRun.map (·.1) = ["clang", "clangbinarysearch", "clex"] ∧ Gen.pyRun.all (fun d => d.2.length == 13) = true := by decide
 
 
-/-- the requests of one granularity when every candidate is rejected: follow `advance` until it wraps (index 0 again) or ends -/
-def level (s : BS) : Nat → List (Nat × Nat)
-  | 0 => []
-  | fuel + 1 => request s :: (match s.advance with
-      | some t => if t.index = 0 then [] else level t fuel
-      | none => [])
-
-/-- the instances a request names, in order -/
-def expand (r : Nat × Nat) : List Nat := List.range' r.1 (r.2 + 1 - r.1)
+/-- the requests of one level / the instances a request names: `BS.level`, `BS.expand` of the model (the model driver prints
+    `level`, and the check compares it with the argv log of the real pass) -/
+abbrev level := BS.level
+abbrev expand := BS.expand
 
 theorem level_tiles_from : ∀ (fuel : Nat) (s : BS), s.Inv → s.instances - s.index ≤ fuel →
     (level s fuel).flatMap expand = List.range' (s.index + 1) (s.instances - s.index) := by
@@ -185,12 +180,12 @@ theorem level_tiles_from : ∀ (fuel : Nat) (s : BS), s.Inv → s.instances - s.
     intro s h hf
     have h1 := h.1
     have h2 := h.2
-    simp only [level, List.flatMap_cons]
+    simp only [level, BS.level, List.flatMap_cons]
     cases ha : s.advance with
     | none =>
       obtain ⟨hc, hi⟩ := BS.advance_none h ha
       have e : s.instances - s.index = 1 := by omega
-      simp [expand, request, BS.end_, e, hc]
+      simp [expand, BS.expand, BS.end_, e, hc]
       have : min (s.index + 1) s.instances = s.index + 1 := by omega
       simp [this]
     | some t =>
@@ -200,8 +195,8 @@ theorem level_tiles_from : ∀ (fuel : Nat) (s : BS), s.Inv → s.instances - s.
         have hlt : t.index < t.instances := hti.1
         simp only [hne, if_false]
         rw [ih t hti (by omega)]
-        have e1 : expand (request s) = List.range' (s.index + 1) s.chunk := by
-          simp only [expand, request, BS.end_]
+        have e1 : expand (s.index + 1, s.end_) = List.range' (s.index + 1) s.chunk := by
+          simp only [expand, BS.expand, BS.end_]
           have : min (s.index + s.chunk) s.instances = s.index + s.chunk := by omega
           rw [this]; congr 1; omega
         rw [e1, hidx, hinst]
@@ -209,7 +204,7 @@ theorem level_tiles_from : ∀ (fuel : Nat) (s : BS), s.Inv → s.instances - s.
         rw [this, ← List.range'_append_1]
         congr 2; omega
       · simp only [hidx, if_true, List.flatMap_nil, List.append_nil]
-        simp only [expand, request, BS.end_]
+        simp only [expand, BS.expand, BS.end_]
         have : min (s.index + s.chunk) s.instances = s.instances := by omega
         rw [this]; congr 1; omega
 
@@ -240,7 +235,7 @@ theorem every_instance_requested (s : BS) (h : s.Inv) (h0 : s.index = 0) (fuel :
     rw [level_tiles s h h0 fuel hf]; simp [List.mem_range'_1]; omega
   obtain ⟨r, hr, hi⟩ := List.mem_flatMap.mp hm
   refine ⟨r, hr, ?_⟩
-  simp [expand, List.mem_range'_1] at hi
+  simp [expand, BS.expand, List.mem_range'_1] at hi
   omega
 
 /-- no overlap, stated on the expansion: no instance is named twice at one level -/
